@@ -38,7 +38,7 @@ CLAIMED = {
             'DESIGN.md §2 C04'),
     'C11': ('syntax-order table completeness and order against the grammar (shared with C14), orientation typestate of reversed work '
             'lists in the interleaved child builders, unit inference (bytes vs characters) on the offset primitives, control-dependence '
-            'of the early termination of the offset walk',
+            'of the early termination of the offset walk; must-offset check of the put_src(action=\'offset\') arm',
             'Static: decides the two preconditions of the offset walk - children enumerated completely and in source order, and byte '
             'deltas applied to byte columns - plus that its early exit is decided by child END positions. The head/tail rules at the '
             'edit point are integer logic over runtime positions and are not decided.',
@@ -69,7 +69,7 @@ CLAIMED = {
             'DESIGN.md §2 C05'),
     'C15': ('stale-after-yield typestate (dataflow over generator CFGs with in-node evaluation order) for locals holding AST '
             'nodes; non-None proof (path-sensitive truthiness facts) for every value popped from the walk stack and every '
-            '.f/.a link before dereference; structural check that detaching marks the whole sub-tree dead',
+            '.f/.a link before dereference; structural check that detaching marks the whole sub-tree dead; children of a node that only changes class keep their FST nodes',
             'Static: decides the liveness discipline that makes walking robust against mutation by the consumer: nothing read '
             'from the tree before a yield is used after it without being re-read through the yielded node, dead or None stack '
             'entries are skipped before use, detached sub-trees are completely marked dead (grammar-aware list filter). '
@@ -79,10 +79,10 @@ CLAIMED = {
             'DESIGN.md §2 C15'),
     'C10': ('dominance of every target mutation in fst_raw.py by the parse of the complete new text (CFG must-pass-through); '
             'validate-then-mutate analysis (as C12) with parser entry points as rejecting calls and return-value-correlated '
-            'callee effects; lock / attachment-point checks of the raw entry points',
+            'callee effects; lock / attachment-point checks of the raw entry points; who-may-pass check on the scratch line list the reparse writes into before parsing',
             'Static, atomicity ordering only: every modification of the live tree by the raw reparse comes after the parse that '
             'can reject the text, nothing can reject afterwards, raw reparse always runs under the raw modification lock and '
-            'attaches new nodes only through _set_ast / root line replacement (root identity). Whether the incremental reparse '
+            'attaches new nodes only through _set_ast / root line replacement (root identity), and the list it scribbles on before parsing is never the live line list. Whether the incremental reparse '
             'equals a from-scratch parse is value-level and NOT decided (the property text itself records disagreements).',
             'Trusts parser naming (fromsrc / parse_*), tree-derivation conventions of sa/effects.py.',
             'DESIGN.md §2 C10'),
@@ -112,7 +112,7 @@ CLAIMED = {
     'C20': ('inventory of module-level mutable state with alias-aware writer analysis against a frozen allow-list; '
             'threading.local structure check; dominance / no-raise-after-update on the CFG of set_options(); try/finally '
             'restore shape of options(); validate-before-kernel dominance for every public **options method; mutation '
-            'check of received option mappings; option registry agreement; root-keyed registry access',
+            'check of received option mappings; option registry agreement; root-keyed registry access; no import-time dereference of the thread-local store',
             'Static: decides isolation by non-interference - the only cross-call state is the thread-local option store '
             '(written only by set_options / the options() restore, validated before a single bulk update, restored in '
             'finally) and the modification registry (written only by the context manager, keyed by the tree root, no '
@@ -131,7 +131,7 @@ CLAIMED = {
             'DESIGN.md §2 C17'),
     'C18': ('table exhaustiveness of template-slot discovery against identifier fields of the grammar; receiver check '
             '(template never mutated) and dominance of the per-iteration template copy; dominance / post-dominance of the '
-            'substitution counter on the CFG of subn()',
+            'substitution counter on the CFG of subn(); must-pass-through of the "do not substitute again" marking between template copy and replace',
             'Static, five narrow clauses (the last two: a per-location loop budget is restored on every path leaving the location; the '
             'index recorded for a list slot enumerates the field itself): slot discovery covers every place an identifier can be written, the template is '
             'never consumed, and one count per performed substitution on every path. Equality with a reference '
